@@ -77,8 +77,12 @@ class Recorder(servers.Script):
 
 def payload(t, k, size):
     head = b'%d:%d:' % (t, k)
-    return head + bytes((t * 31 + k * 7 + i) % 251 for i in
-                        range(max(0, size - len(head))))
+    n = max(0, size - len(head))
+    if (t + k) % 2:
+        # a payload that shrinks when deflated (a frame whose compressed
+        # form is shorter than the packet it replaces in the buffer)
+        return head + bytes([(t * 31 + k * 7) % 251]) * n
+    return head + bytes((t * 31 + k * 7 + i) % 251 for i in range(n))
 
 
 def _imm(v):
